@@ -671,6 +671,21 @@ def gen_monitored(rnd, dyn=None):
     return base
 
 
+def gen_monfix(rnd, dyn=None):
+    """C04: a fixed-recovery epidemic observed by a Monitor whose interval divides the infectious period: every removal is due at the very
+    time of a (later posted) observation, so the tie order between a one-off and a repeating event is exercised"""
+    cls = rnd.choice(['SIR_FixedRecovery', 'SIS_FixedRecovery'])
+    base = gen_shipped(rnd, classes=[cls], dyn=dyn, oracles=('clock', 'member', 'loci'), net=rand_net(rnd, 3, 7, kind=rnd.choice(['er', 'complete', 'star'])))
+    delta = rnd.choice([0.5, 1.0])
+    T = delta * rnd.choice([1, 2, 3])
+    p = base['procs'][0]
+    p['params'] = {k: (T if k.endswith('tInfected') else v) for k, v in p['params'].items()}
+    procs = [p, dict(cls='Monitor', name=None, params={Monitor.DELTA: delta})]
+    if rnd.random() < 0.3: procs.reverse()
+    base.update(procs=procs, seq='list', oracles=['clock', 'member', 'loci', 'monitor'], maxT=rnd.choice([3.0, 5.0]))
+    return base
+
+
 def final_monitor(d, ex, res, md, spec):
     """C12: observation times 0, d, 2d, ... up to the end; one series per locus, as long as the list of times; each value is the
     locus' size after every strictly earlier event and before every strictly later one.  NetworkStatistics against a BFS."""
